@@ -632,7 +632,55 @@ func c18R5(c *Ctx) {
 		return true
 	})
 	c.Check(okReq, "C18.R5", "defaulting runs whenever an entry lacks vSwitches or security groups", p.Pos(loop), fn.Key(), "flag raised under len(VSwitchOptions)==0 || len(SecurityGroupIDs)==0, defaulting loop under the flag", "not recognised")
-	_ = info
+	// the defaulted security groups obey the per-entry bound: the validation loop of R2 runs before the
+	// defaults are filled in, so the bound on what is filled in is the loader's. The loader bounds the
+	// very accessor whose value the webhook writes (the union of the legacy field and the list), not a
+	// part of it.
+	var getter *types.Func
+	ast.Inspect(loop.Body, func(nd ast.Node) bool {
+		as, ok := nd.(*ast.AssignStmt)
+		if !ok || len(as.Lhs) != 1 || !strings.HasSuffix(exprString(as.Lhs[0]), ".SecurityGroupIDs") {
+			return true
+		}
+		if call, ok := ast.Unparen(as.Rhs[0]).(*ast.CallExpr); ok {
+			getter = Callee(info, call)
+		}
+		return true
+	})
+	loader := p.Func("types/daemon", "ConfigFromConfigMap")
+	p.Func("types/daemon", "Config.GetSecurityGroups") // anchor: the accessor stays a call in the loader
+	if getter == nil || loader == nil {
+		c.Undec("C18.R5", "the loader bounds the defaulted security groups", p.Pos(loop), fn.Key(), "SecurityGroupIDs = cfg.<getter>() and types/daemon.ConfigFromConfigMap", "getter or loader not found")
+		return
+	}
+	linfo := loader.Info()
+	var bounded ast.Expr
+	ast.Inspect(loader.Decl.Body, func(nd ast.Node) bool {
+		be, ok := nd.(*ast.BinaryExpr)
+		if !ok {
+			return true
+		}
+		for _, side := range []ast.Expr{be.X, be.Y} {
+			lc, ok := isBuiltinCall(linfo, side, "len")
+			if !ok {
+				continue
+			}
+			if call, ok := ast.Unparen(derefExpr(loader, lc.Args[0])).(*ast.CallExpr); ok && Callee(linfo, call) == getter {
+				bounded = lc.Args[0]
+			}
+		}
+		return true
+	})
+	if bounded == nil {
+		c.Bad("C18.R5", "the loader bounds the defaulted security groups", p.Pos(loader.Decl), loader.Key(), "len(cfg."+getter.Name()+"()) is tested in ConfigFromConfigMap", "no length test on the value of "+getter.Name()+"() — the webhook writes that value into the entry unchecked")
+		return
+	}
+	lsig := loader.Obj.Type().(*types.Signature)
+	for _, r := range declReturns(loader.Decl.Body) {
+		if ok, known := isSuccessReturn(linfo, lsig, r); ok && known {
+			c.Require("C18.R5", "ConfigFromConfigMap succeeds only with at most ten defaulted security groups", loader, r, "len("+exprString(bounded)+") <= 10", nil)
+		}
+	}
 }
 
 func c18R6(c *Ctx) {
